@@ -473,7 +473,7 @@ def _project(case, run, aborted, mult):
         "events": events,
         "end": {"n": nlog, "ny": ny, "aborted": bool(aborted), "capped": bool(run.capped), "stray": len(stray)},
     }
-    info = {"aborted": aborted, "inexact": sorted(set(conv.inexact)), "requests": nlog}
+    info = {"aborted": aborted, "inexact": sorted(set(conv.inexact)), "requests": nlog, "raw": [x for lst in per_req for x in lst]}
     return item, info
 
 
